@@ -1566,3 +1566,18 @@ Lemma example_forged_packets_dropped_stmt :
   delivers_unauthentic (w_cfg true true true) w_late = false /\
   delivers_unauthentic (w_cfg true true true) w_echo = false.
 Proof. split; [exact late_reply_dropped_with_conn_check|exact echo_dropped_with_qr_check]. Qed.
+
+(* the exception to inertness: a datagram that does not parse, arriving from the server's
+   address, closes the connection and costs every query on it one try *)
+Definition w_malformed : list event :=
+  [EOpenConn 10 0 false;
+   ENew 1 w_qd 0 true false false 0 false false [7] 1000;
+   EAssign 7 10 None;
+   ERead 10 100 1000 0 (DMalformed 9)].
+
+Lemma malformed_not_inert_stmt :
+  exists tr st,
+    run_trace (w_cfg true true true) (init_chan w_servers) w_malformed = Ok (tr, st) /\
+    map (fun x => snd x) (skipn 3 tr) = [[OServerFail 0 9; OConnError 10]] /\
+    map q_try (ch_queries st) = [1] /\ map q_conn (ch_queries st) = [None] /\ ch_conns st = [].
+Proof. eexists. eexists. vm_compute. repeat split. Qed.
